@@ -11,6 +11,9 @@
 #include "ares_private.h"
 #include "drv_common.h"
 #include "dsa_reg.h"
+#include <signal.h>
+#include <sys/time.h>
+#include <unistd.h>
 
 typedef struct {
   long long key;
@@ -245,10 +248,30 @@ static void sl_run_once(long k, const char *ops_in, int mode, unsigned long long
   free(ops);
 }
 
+/* A broken list can make the library loop forever (e.g. find rewinding over a prev cycle):
+ * limit the CPU time of a case; exit code 124 is reported by the runner as a timeout of this
+ * case and the run resumes with the next one. */
+#define SL_CASE_CPU_SECONDS 3
+static void sl_watchdog(int sig)
+{
+  (void)sig;
+  _exit(124);
+}
+
+static void sl_set_watchdog(long seconds)
+{
+  struct itimerval it;
+  memset(&it, 0, sizeof(it));
+  it.it_value.tv_sec = seconds;
+  signal(SIGPROF, sl_watchdog);
+  setitimer(ITIMER_PROF, &it, NULL);
+}
+
 static void run_slist(long k, char *ops)
 {
   unsigned long long h = 1469598103934665603ULL;
   const char        *c;
+  sl_set_watchdog(SL_CASE_CPU_SECONDS);
   for (c = ops; *c; c++) h = (h ^ (unsigned char)*c) * 1099511628211ULL;
   sl_run_once(k, ops, 0, 0x9E3779B97F4A7C15ULL);
   sl_run_once(k, ops, 0, h | 1);
@@ -256,6 +279,7 @@ static void run_slist(long k, char *ops)
     sl_run_once(k, ops, 1, 0);
     sl_run_once(k, ops, 2, 0);
   }
+  sl_set_watchdog(0);
 }
 
 DSA_REGISTER("slist", run_slist)
